@@ -80,6 +80,11 @@ void *rs_malloc(size_t req_size)
 
 void *rs_calloc(size_t nmemb, size_t size)
 {
+	if(unlikely(size && nmemb > SIZE_MAX / size)) {
+		errno = ENOMEM;
+		return NULL;
+	}
+
 	size_t tot = nmemb * size;
 	void *ret = rs_malloc(tot);
 
